@@ -2484,6 +2484,7 @@ class Stream(AbstractStream):
         vapor = ms['g']
         liquid = ms['l']
         for chemical in ms.chemicals:
+            if chemical.locked_state: continue # Already placed in its only phase
             try: Psat = chemical.Psat(T)
             except: continue
             ID = chemical.ID
